@@ -1,7 +1,7 @@
 SPECIFICATION Spec
 CONSTANTS
   Scheme = "cmdsig"
-  MaxTamper = 2
+  MaxTamper = 3
   HashModel = "tuple"
   PLens = {0}
 INVARIANTS AcceptIffUnchanged IdAgreement Emit
